@@ -14,6 +14,7 @@ From Coq Require Import ZArith List Bool Arith.
 From SpadeV Require Import Geom.Pred Cdt.SegSpec Cdt.SegSpecProofs Obs.State Obs.Spec Obs.SpecProp Obs.Query Obs.QueryProp Refine.Outer
   Check.Codes Check.Run Cdt.SplitProp Cdt.SplitProofs.
 Import ListNotations.
+From SpadeV Require Props.C13b.
 
 Theorem C13_sub_segment_crossing : forall a b p q c d, a <> b -> on_segment a b p = true -> on_segment a b q = true ->
   proper_cross p q c d = true -> proper_cross a b c d = true.
